@@ -70,6 +70,49 @@ func main() {
 			sort.Strings(ps)
 			fmt.Printf("%-90s %v ext=%v\n", shortFn(k), ps, c.External)
 		}
+	case "locksites":
+		// every /repo function (tests excluded) that takes or releases a mutex directly, with its contract status
+		var keys []string
+		for k, fn := range eng.Funcs {
+			if !inRepo(fn) || fn.Blocks == nil {
+				continue
+			}
+			if pos := eng.Prog.Fset.Position(fn.Pos()); strings.HasSuffix(pos.Filename, "_test.go") || strings.Contains(pos.Filename, "/examples/") {
+				continue
+			}
+			n := 0
+			for _, b := range fn.Blocks {
+				for _, ins := range b.Instrs {
+					var cc *ssa.CallCommon
+					switch x := ins.(type) {
+					case *ssa.Call:
+						cc = &x.Call
+					case *ssa.Defer:
+						cc = &x.Call
+					}
+					if cc == nil {
+						continue
+					}
+					if f := cc.StaticCallee(); f != nil && (strings.HasPrefix(f.String(), "(*sync.Mutex).") || strings.HasPrefix(f.String(), "(*sync.RWMutex).")) {
+						n++
+					}
+				}
+			}
+			if n > 0 {
+				st := "NONE"
+				if c := eng.CS.Funcs[k]; c != nil {
+					st = "contract"
+					if c.LockOnly {
+						st = "lockonly"
+					}
+				}
+				keys = append(keys, fmt.Sprintf("%-10s %s", st, k))
+			}
+		}
+		sort.Strings(keys)
+		for _, k := range keys {
+			fmt.Println(k)
+		}
 	case "verify":
 		var results []*FnResult
 		for _, name := range fs.Args() {
